@@ -247,6 +247,9 @@ func (p schemaValidatorsPool) BorrowValidator() *SchemaValidator {
 
 func (p schemaValidatorsPool) RedeemValidator(s *SchemaValidator) {
 	// NOTE: s might be nil. In that case, Put is a noop.
+	if verifRedeemed(s) {
+		return
+	}
 	p.Put(s)
 }
 
@@ -255,6 +258,9 @@ func (p objectValidatorsPool) BorrowValidator() *objectValidator {
 }
 
 func (p objectValidatorsPool) RedeemValidator(s *objectValidator) {
+	if verifRedeemed(s) {
+		return
+	}
 	p.Put(s)
 }
 
@@ -263,6 +269,9 @@ func (p sliceValidatorsPool) BorrowValidator() *schemaSliceValidator {
 }
 
 func (p sliceValidatorsPool) RedeemValidator(s *schemaSliceValidator) {
+	if verifRedeemed(s) {
+		return
+	}
 	p.Put(s)
 }
 
@@ -271,6 +280,9 @@ func (p itemsValidatorsPool) BorrowValidator() *itemsValidator {
 }
 
 func (p itemsValidatorsPool) RedeemValidator(s *itemsValidator) {
+	if verifRedeemed(s) {
+		return
+	}
 	p.Put(s)
 }
 
@@ -279,6 +291,9 @@ func (p basicCommonValidatorsPool) BorrowValidator() *basicCommonValidator {
 }
 
 func (p basicCommonValidatorsPool) RedeemValidator(s *basicCommonValidator) {
+	if verifRedeemed(s) {
+		return
+	}
 	p.Put(s)
 }
 
@@ -287,6 +302,9 @@ func (p headerValidatorsPool) BorrowValidator() *HeaderValidator {
 }
 
 func (p headerValidatorsPool) RedeemValidator(s *HeaderValidator) {
+	if verifRedeemed(s) {
+		return
+	}
 	p.Put(s)
 }
 
@@ -295,6 +313,9 @@ func (p paramValidatorsPool) BorrowValidator() *ParamValidator {
 }
 
 func (p paramValidatorsPool) RedeemValidator(s *ParamValidator) {
+	if verifRedeemed(s) {
+		return
+	}
 	p.Put(s)
 }
 
@@ -303,6 +324,9 @@ func (p basicSliceValidatorsPool) BorrowValidator() *basicSliceValidator {
 }
 
 func (p basicSliceValidatorsPool) RedeemValidator(s *basicSliceValidator) {
+	if verifRedeemed(s) {
+		return
+	}
 	p.Put(s)
 }
 
@@ -311,6 +335,9 @@ func (p numberValidatorsPool) BorrowValidator() *numberValidator {
 }
 
 func (p numberValidatorsPool) RedeemValidator(s *numberValidator) {
+	if verifRedeemed(s) {
+		return
+	}
 	p.Put(s)
 }
 
@@ -319,6 +346,9 @@ func (p stringValidatorsPool) BorrowValidator() *stringValidator {
 }
 
 func (p stringValidatorsPool) RedeemValidator(s *stringValidator) {
+	if verifRedeemed(s) {
+		return
+	}
 	p.Put(s)
 }
 
@@ -327,6 +357,9 @@ func (p schemaPropsValidatorsPool) BorrowValidator() *schemaPropsValidator {
 }
 
 func (p schemaPropsValidatorsPool) RedeemValidator(s *schemaPropsValidator) {
+	if verifRedeemed(s) {
+		return
+	}
 	p.Put(s)
 }
 
@@ -335,6 +368,9 @@ func (p formatValidatorsPool) BorrowValidator() *formatValidator {
 }
 
 func (p formatValidatorsPool) RedeemValidator(s *formatValidator) {
+	if verifRedeemed(s) {
+		return
+	}
 	p.Put(s)
 }
 
@@ -343,6 +379,9 @@ func (p typeValidatorsPool) BorrowValidator() *typeValidator {
 }
 
 func (p typeValidatorsPool) RedeemValidator(s *typeValidator) {
+	if verifRedeemed(s) {
+		return
+	}
 	p.Put(s)
 }
 
@@ -351,6 +390,9 @@ func (p schemasPool) BorrowSchema() *spec.Schema {
 }
 
 func (p schemasPool) RedeemSchema(s *spec.Schema) {
+	if verifRedeemed(s) {
+		return
+	}
 	p.Put(s)
 }
 
@@ -360,6 +402,9 @@ func (p resultsPool) BorrowResult() *Result {
 
 func (p resultsPool) RedeemResult(s *Result) {
 	if s == emptyResult {
+		return
+	}
+	if verifRedeemed(s) {
 		return
 	}
 	p.Put(s)
